@@ -16,7 +16,7 @@ RULE = ("Hypothesis-generated 2D/3D plotfiles (1-3 nested levels, mixed extents,
         "sign, out-of-range, unknown) x level (0..limit; limit+1 and -(limit+2), -(limit+3) must raise; -1..-(limit+1) python-style under the either-rule) x box selector (int, negative, numpy int, "
         "slices, int lists/arrays incl. negative/repeated/int32, boolean masks as array/list, wrong-length mask, "
         "empty, out of range). Listed forms must return the exact 64-bit values; other forms must either raise "
-        "or return exactly what numpy indexing semantics give. Non-trivial = >= 2 fields and (scattered or "
+        "Index arrays also come as int16 / int8 / uint8 / uint16 (the 8-bit ones with 130 or 300 entries) under the either-rule. or return exactly what numpy indexing semantics give. Non-trivial = >= 2 fields and (scattered or "
         "non-monotone layout or non-cubic box or a selection not starting at component 0).")
 ASSUMPTIONS = ["refinement ratio 2", "in-process pool with identity schedule (C12/C15 vary it)"]
 
